@@ -14,6 +14,8 @@ if r.returncode != 0:
     r = subprocess.run(["git", "-C", REPO, "apply", "--3way", "--whitespace=nowarn", patch], capture_output=True, text=True)
     if r.returncode != 0:
         print("APPLY-FAILED", r.stderr[-500:])
+        subprocess.run(["git", "-C", REPO, "checkout", "-f", "HEAD", "--", "."], check=False)   # a failed 3-way apply leaves conflict markers
+        subprocess.run(["git", "-C", REPO, "reset", "-q"], check=False)
         sys.exit(2)
 VERIF = os.path.dirname(os.path.dirname(os.path.abspath(__file__)))
 saved = {}
